@@ -1,5 +1,10 @@
 # property id -> claim text (filled as checks are admitted; everything else is listed under NA with the reason)
 CLAIMS = {
+ 'C16': {'technique': 'static analysis on forced template instantiations: per-instantiation constant folding of IsPerItemClearNecessary(), CFG pruning, shrink->reset and reset->grow pairing',
+         'text': 'Decides one structural clause of C16 — "never exposes stale items after shrinking": per instantiation (Queue<int32>, Queue<String>, Queue<ByteBufferRef>) either every reachable decrease of '
+                 '_itemCount resets the vacated slot(s) to the default item on every feasible path, or every growth of _itemCount over unassigned slots first stores the default item into them. '
+                 'All other deque behaviour (index translation, insert/remove results, sorting, rotation, copy/move) is not decided.',
+         'note': 'Narrow: one necessary condition of C16, not the refinement of an ideal sequence.'},
  'C10': {'technique': 'static analysis on forced template instantiations: single-RMW shape check, guard dominance of the free sites, per-method pairing obligations on the CFG, lock sets for the pool',
          'text': 'Decides the release-exactly-once structure: the last-reference decision is the result of one atomic read-modify-write; delete/RecycleObject only on the true edge of that decision (and of the '
                  'counting bit and allowDelete), mutually exclusive; every store into ConstRef::_item is bracketed by the matching count operation (per-method obligations, constructors included, move/swap '
@@ -65,6 +70,6 @@ CLAIMS = {
          'note': 'Assumes const methods with by-value/const-ref parameters do not change what loop tests read; logging and destructor hubs are cut from the recursion graph.'},
 }
 _PENDING = 'check under construction in this session (see DESIGN.md section 4); not claimed until its rule is admitted'
-NA = {pid: _PENDING for pid in ['C01','C03','C08','C14','C15','C16','C17']}
+NA = {pid: _PENDING for pid in ['C01','C03','C08','C14','C15','C17']}
 NA['C09'] = ('refinement of an ideal ordered map over operation histories with live iterators: its mechanisms are co-located with the mutations they protect inside single template functions; '
              'no sound structural necessary condition was found that is not either compiler-enforced or a frozen-fragment match (DESIGN.md section 4, C09)')
